@@ -175,6 +175,9 @@ func (w *World) denied(name string) bool {
 	if v, ok := allowedFns[name]; ok {
 		return !v
 	}
+	if strings.HasSuffix(name, "$bound") || strings.HasSuffix(name, "$thunk") {
+		return false // synthetic forwarding wrappers: the real target is resolved (and policed) when they call it
+	}
 	if strings.HasPrefix(name, "sync.OnceFunc") || strings.HasPrefix(name, "sync.OnceValue") {
 		return false
 	}
